@@ -24,11 +24,14 @@ DECLINED = ["'pre-existing objects ... still work' and 'the same call succeeds w
             "resources stored in arrays inside loops", "failures of user callbacks other than create_unit"]
 ASSUMPTIONS = ["the allocator table of abtverif/errflow.py lists the repository's allocation entry points"]
 RULES_DOC = dict(common.SHARED_DOC)
+RULES_DOC["X8"] = common.X8_DOC
+RULES_DOC["X7"] = common.X7_DOC
 RULES_DOC["R6"] = c18_commit.DOC
 RULES_DOC["R7"] = ("= C16.R1: the key-table slot is published NULL -> LOCKED -> table and is put back to NULL when the "
                    "table cannot be allocated (a failed set leaves no lock sentinel behind)")
 RULES_DOC["R8"] = "a routine that receives an array of pool handles frees, on its own paths, only the pools it created itself: every ABTI_pool_free call in it is governed by the test that the caller's slot was ABT_POOL_NULL"
 RULES_DOC["X4"] = common.X4_DOC
+RULES_DOC["R10"] = "= C14.R1: when associating a unit with a pool fails, the unit that was just created is given back to the pool that created it (and nothing else changes): the error path of ABTI_unit_set_associated_pool / ABTI_thread_set_associated_pool undoes exactly what it did"
 RULES_DOC["R9"] = "= C06.R9: an error path that detaches the caller's pools from a scheduler before freeing it releases the reference it took on each of them"
 RULES_DOC.update({
     "R1": "no dropped error (-Werror=unused-result witness over all units) and no out-parameter read before the result test",
@@ -476,6 +479,21 @@ def _reachable_from_api(P, name):
     return True
 
 
+def _copy_root(F, var, at):
+    """The variable a local is a plain copy of (a helper's parameter after flattening, a renamed temporary)."""
+    hops = 0
+    while var is not None and hops < 4:
+        d = canon.reaching_def(F, var, at)
+        if not isinstance(d, int):
+            break
+        dn = F.nodes[F.strip(d)]
+        if dn.get("k") != "ref" or dn.get("dk") not in ("var", "param"):
+            break
+        var, at = dn["n"], d
+        hops += 1
+    return var
+
+
 def rule_R8(P, rep):
     from abtverif import ctrldep
     n = 0
@@ -489,9 +507,10 @@ def rule_R8(P, rep):
             # array into which a handle of the parameter array was copied on a path that reaches the release
             base = F.base_var(F.nodes[i]["a"][0]) or F.base_var(F.nodes[F.strip(F.nodes[i]["a"][0])]["a"][0]) \
                 if F.nodes[F.strip(F.nodes[i]["a"][0])].get("k") == "call" else F.base_var(F.nodes[i]["a"][0])
+            base = _copy_root(F, base, i)
             mixed = False
             for _b2, s2, lh, rh in F.stores():
-                if rh is None or F.base_var(lh) != base or base in arr:
+                if rh is None or _copy_root(F, F.base_var(lh), s2) != base or base in arr:
                     continue
                 if any((a + "[") in canon.expr(F, rh, depth=1) for a in arr) and cfg.can_reach(F, s2, i):
                     mixed = True
@@ -511,6 +530,8 @@ def rule_R8(P, rep):
 
 
 def run(P, rep, tier):
+    common.rule_X8(P, rep)
+    common.rule_X7(P, rep)
     common.rule_X4(P, rep)
     rule_R1(P, rep)
     rule_R2(P, rep)
@@ -522,3 +543,5 @@ def run(P, rep, tier):
     from . import c06_refs
     common.borrow(rep, P, c06_refs.rule_R9, "R9")
     common.borrow(rep, P, C16.rule_R1_R2, "R7", only=("R1",))
+    from . import C14
+    common.borrow(rep, P, C14.rule_R1, "R10")
